@@ -5,7 +5,9 @@ package main
 // critical section of one mutex; these facts say that the Go methods have that shape:
 //
 //   * the body of (*sequencer).NextSequenceNumber and of (*sequencer).RollOverCount starts with
-//     `s.mutex.Lock()` immediately followed by `defer s.mutex.Unlock()`;
+//     `s.mutex.Lock()` (RLock() is accepted for the read-only RollOverCount) and releases it
+//     either by `defer s.mutex.Unlock()` as the next statement or by one top-level Unlock() after
+//     the last access to the guarded fields, with no return before it;
 //   * neither body contains any other use of the mutex, a func literal or a go statement;
 //   * the fields sequenceNumber / rollOverCount are referenced nowhere else in the package
 //     (all non-test files, including verif hooks), except as keys of the struct literals in
@@ -124,6 +126,101 @@ func pktzEvalConstInt(e ast.Expr) (int, bool) {
 	return 0, false
 }
 
+func seqTouchesFields(n ast.Node) bool {
+	found := false
+	ast.Inspect(n, func(x ast.Node) bool {
+		if sel, ok := x.(*ast.SelectorExpr); ok && (sel.Sel.Name == seqFieldA || sel.Sel.Name == seqFieldB) {
+			found = true
+		}
+		return true
+	})
+	return found
+}
+
+func seqHasReturn(n ast.Node) bool {
+	found := false
+	ast.Inspect(n, func(x ast.Node) bool {
+		if _, ok := x.(*ast.ReturnStmt); ok {
+			found = true
+		}
+		return true
+	})
+	return found
+}
+
+// seqLockDiscipline looks at a method body: (locksFirst, unlockOK, clean).
+//
+//	locksFirst: the first statement is recv.mutex.Lock() (RLock() accepted for the read-only method)
+//	unlockOK:   either the second statement is `defer recv.mutex.Unlock()` (RUnlock after RLock), or
+//	            the matching Unlock is a top-level statement with no access to the guarded fields
+//	            after it and no return statement before it
+//	clean:      no further use of the mutex, no func literal, no go statement in the body
+func seqLockDiscipline(body []ast.Stmt, recv string, readOnly bool) (bool, bool, bool) {
+	if len(body) == 0 {
+		return false, false, true
+	}
+	lockName, unlockName := "", ""
+	if es, ok := body[0].(*ast.ExprStmt); ok {
+		switch {
+		case seqIsMutexCall(es.X, recv, "Lock"):
+			lockName, unlockName = "Lock", "Unlock"
+		case readOnly && seqIsMutexCall(es.X, recv, "RLock"):
+			lockName, unlockName = "RLock", "RUnlock"
+		}
+	}
+	if lockName == "" {
+		return false, false, true
+	}
+	rest := body[1:]
+	unlockOK := false
+	if len(rest) >= 1 {
+		if ds, ok := rest[0].(*ast.DeferStmt); ok && seqIsMutexCall(ds.Call, recv, unlockName) {
+			unlockOK = true
+			rest = rest[1:]
+		}
+	}
+	if !unlockOK {
+		// explicit unlock: a top-level statement, nothing guarded touched afterwards, no return before it
+		for k, st := range rest {
+			es, ok := st.(*ast.ExprStmt)
+			if !ok || !seqIsMutexCall(es.X, recv, unlockName) {
+				continue
+			}
+			ok2 := true
+			for _, before := range rest[:k] {
+				if seqHasReturn(before) {
+					ok2 = false
+				}
+			}
+			for _, after := range rest[k+1:] {
+				if seqTouchesFields(after) {
+					ok2 = false
+				}
+			}
+			if ok2 {
+				unlockOK = true
+				rest = append(append([]ast.Stmt{}, rest[:k]...), rest[k+1:]...)
+			}
+			break
+		}
+	}
+	clean := true
+	for _, st := range rest {
+		ast.Inspect(st, func(n ast.Node) bool {
+			switch v := n.(type) {
+			case *ast.SelectorExpr:
+				if v.Sel.Name == seqMutex {
+					clean = false
+				}
+			case *ast.FuncLit, *ast.GoStmt:
+				clean = false
+			}
+			return true
+		})
+	}
+	return true, unlockOK, clean
+}
+
 func extractSeqFacts(dir string) seqFacts {
 	f := seqFacts{noOtherLockOps: true, fieldsPrivate: true, maxInitialRandom: -1}
 	names, err := filepath.Glob(filepath.Join(dir, "*.go"))
@@ -174,35 +271,15 @@ func extractSeqFacts(dir string) seqFacts {
 					continue
 				}
 				if isMethod {
-					locks := len(d.Body.List) >= 1 && func() bool {
-						es, ok := d.Body.List[0].(*ast.ExprStmt)
-						return ok && seqIsMutexCall(es.X, recv, "Lock")
-					}()
-					defers := locks && len(d.Body.List) >= 2 && func() bool {
-						ds, ok := d.Body.List[1].(*ast.DeferStmt)
-						return ok && seqIsMutexCall(ds.Call, recv, "Unlock")
-					}()
-					if d.Name.Name == "NextSequenceNumber" {
-						f.nextLocksFirst, f.nextDefersUnlock, seenNext = locks, defers, true
+					readOnly := d.Name.Name == "RollOverCount"
+					locks, unlocks, clean := seqLockDiscipline(d.Body.List, recv, readOnly)
+					if readOnly {
+						f.rocLocksFirst, f.rocDefersUnlock, seenRoc = locks, unlocks, true
 					} else {
-						f.rocLocksFirst, f.rocDefersUnlock, seenRoc = locks, defers, true
+						f.nextLocksFirst, f.nextDefersUnlock, seenNext = locks, unlocks, true
 					}
-					rest := d.Body.List
-					if defers {
-						rest = rest[2:]
-					}
-					for _, st := range rest {
-						ast.Inspect(st, func(n ast.Node) bool {
-							switch v := n.(type) {
-							case *ast.SelectorExpr:
-								if v.Sel.Name == seqMutex {
-									f.noOtherLockOps = false
-								}
-							case *ast.FuncLit, *ast.GoStmt:
-								f.noOtherLockOps = false
-							}
-							return true
-						})
+					if !clean {
+						f.noOtherLockOps = false
 					}
 					continue
 				}
